@@ -2,10 +2,11 @@ package main
 
 import (
 	"fmt"
-	"os"
 	"go/token"
 	"go/types"
 	"math/big"
+	"os"
+	"runtime/debug"
 	"sort"
 	"strings"
 
@@ -21,10 +22,11 @@ type Resolver struct {
 	implOK        map[string]bool
 	methodsByName map[string][]*ssa.Function
 	nonNilGlobals map[*ssa.Global]bool
-	byName   map[string]*FuncSpec
-	wild     []wildSpec
-	allFuncs map[string]*ssa.Function
-	missing  []*FuncSpec
+	byName        map[string]*FuncSpec
+	wild          []wildSpec
+	allFuncs      map[string]*ssa.Function
+	missing       []*FuncSpec
+	fvCands       map[string][]*ssa.Function // functions used as values, by signature
 }
 
 type wildSpec struct {
@@ -178,6 +180,12 @@ func isLockNoop(name string) bool {
 	return false
 }
 
+// isWrapper: compiler-made wrapper (bound method value, thunk, promoted-method wrapper): its body
+// just calls the wrapped function and is analysed like program code.
+func isWrapper(fn *ssa.Function) bool {
+	return fn != nil && fn.Synthetic != "" && fn.Pkg == nil
+}
+
 func inRepo(fn *ssa.Function) bool {
 	return fn != nil && fn.Pkg != nil && strings.HasPrefix(fn.Pkg.Pkg.Path(), modPath) || (fn != nil && fn.Pkg == nil && fn.Parent() != nil && inRepo(fn.Parent()))
 }
@@ -203,6 +211,7 @@ func rootsAtStackAlloc(a ssa.Value) bool {
 
 func (ws *writeSet) add(o writeSet) {
 	if o.all {
+		wsDebug(207)
 		ws.all, ws.allPlain = true, true
 	}
 	if o.extern {
@@ -226,19 +235,63 @@ func (e *Enc) instrWrites(ins ssa.Instruction, ws *writeSet, depth int, seen map
 			e.storeCompNames(v.Addr, ws.fresh) // initialisation of an object the writer allocated
 			break
 		}
-		e.storeCompNames(v.Addr, ws.names)
+		e.withWatch(ws, ins, func() { e.storeCompNames(v.Addr, ws.names) })
 	case *ssa.MapUpdate:
-		e.mapCompNames(v.Map.Type().Underlying().(*types.Map), ws.names)
+		e.withWatch(ws, ins, func() { e.mapCompNames(v.Map.Type().Underlying().(*types.Map), ws.names) })
 	case *ssa.Call:
+		e.wsInsStack = append(e.wsInsStack, ins)
 		e.callWrites(&v.Call, ws, depth, seen)
+		e.wsInsStack = e.wsInsStack[:len(e.wsInsStack)-1]
 	case *ssa.Defer:
+		e.wsInsStack = append(e.wsInsStack, ins)
 		e.callWrites(&v.Call, ws, depth, seen)
+		e.wsInsStack = e.wsInsStack[:len(e.wsInsStack)-1]
 	case *ssa.Go:
 		// goroutines are not modelled
 	case *ssa.Alloc, *ssa.MakeMap, *ssa.MakeSlice, *ssa.MakeChan, *ssa.Convert:
 		// allocation only
 	case *ssa.Send, *ssa.Select:
 	}
+}
+
+// wsSite: an instruction that (non-freshly) writes a watched heap component, with the chain of
+// functions through which the write-set traversal reached it.
+type wsSite struct {
+	name  string
+	ins   ssa.Instruction
+	chain []string
+}
+
+// withWatch runs one leaf step of the write-set computation and records, per watched component,
+// whether THIS step writes it (independently of earlier writers).
+func (e *Enc) withWatch(ws *writeSet, ins ssa.Instruction, step func()) {
+	if ws.watch == nil {
+		step()
+		return
+	}
+	had := map[string]bool{}
+	for n := range ws.watch {
+		if ws.names[n] {
+			had[n] = true
+			delete(ws.names, n)
+		}
+	}
+	step()
+	for n := range ws.watch {
+		if ws.names[n] && ins != nil {
+			*ws.sites = append(*ws.sites, wsSite{n, ins, append([]string(nil), e.wsStack...)})
+		}
+		if had[n] {
+			ws.names[n] = true
+		}
+	}
+}
+
+func (e *Enc) wsCurIns() ssa.Instruction {
+	if len(e.wsInsStack) == 0 {
+		return nil
+	}
+	return e.wsInsStack[len(e.wsInsStack)-1]
 }
 
 // callWrites accumulates into ws the heap components a call may write, transitively: contracts
@@ -250,12 +303,13 @@ func (e *Enc) callWrites(c *ssa.CallCommon, ws *writeSet, depth int, seen map[*s
 		switch b.Name() {
 		case "append", "copy":
 			if sl, ok := c.Args[0].Type().Underlying().(*types.Slice); ok {
-				e.allFieldCompNames(sl.Elem(), ws.names)
+				e.withWatch(ws, e.wsCurIns(), func() { e.allFieldCompNames(sl.Elem(), ws.names) })
 			}
 		case "delete", "clear":
 			if m, ok := c.Args[0].Type().Underlying().(*types.Map); ok {
 				e.mapCompNames(m, ws.names)
 			} else {
+				wsDebug(260)
 				ws.all, ws.allPlain = true, true
 			}
 		}
@@ -266,16 +320,51 @@ func (e *Enc) callWrites(c *ssa.CallCommon, ws *writeSet, depth int, seen map[*s
 			e.specWrites(spec, c.Signature(), nil, ws)
 			return
 		}
-		cands, ok := e.R.implementations(c.Value.Type(), c.Method)
-		if !ok {
+		cands, _ := e.R.implementations(c.Value.Type(), c.Method)
+		nRepo, nExt := 0, 0
+		for _, cand := range cands {
+			if inRepo(cand) {
+				nRepo++
+			} else {
+				nExt++
+			}
+		}
+		if nRepo+nExt == 0 || nRepo > 40 {
+			wsDebug(272)
+			if os.Getenv("VCHECK_WSDEBUG") != "" {
+				fmt.Fprintf(os.Stderr, "  invoke %s: %d implementations\n", c.Method.FullName(), len(cands))
+			}
 			ws.all, ws.allPlain = true, true
 			return
 		}
 		for _, cand := range cands {
+			if !inRepo(cand) {
+				continue
+			}
 			e.funcWrites(cand, c, ws, depth, seen)
 			if ws.all {
 				return
 			}
+		}
+		if nExt > 0 {
+			// implementations outside the program write their own (external) state and what they
+			// reach from the arguments
+			seenT := map[string]bool{}
+			ps := c.Signature().Params()
+			for i := 0; i < ps.Len(); i++ {
+				switch ps.At(i).Type().Underlying().(type) {
+				case *types.Signature, *types.Interface:
+					wsDebug(273)
+					ws.all, ws.allPlain = true, true
+					return
+				}
+				if !e.externReach(ps.At(i).Type(), ws.names, seenT, 0) {
+					wsDebug(274)
+					ws.all, ws.allPlain = true, true
+					return
+				}
+			}
+			ws.extern = true
 		}
 		return
 	}
@@ -286,10 +375,172 @@ func (e *Enc) callWrites(c *ssa.CallCommon, ws *writeSet, depth int, seen map[*s
 		}
 	}
 	if callee == nil {
-		ws.all, ws.allPlain = true, true // call through an unknown function value
+		// call through a function value (closed world): the value is a function of the program that
+		// is used as a value somewhere and has this signature, or an external function, which
+		// can write only what it reaches from its arguments
+		if target := e.resolveFV(c.Value); target != nil {
+			e.funcWrites(target, c, ws, depth, seen)
+			return
+		}
+		for _, cand := range e.R.funcValueCands(c.Signature()) {
+			e.funcWrites(cand, c, ws, depth, seen)
+			if ws.all {
+				return
+			}
+		}
+		seenT := map[string]bool{}
+		ps := c.Signature().Params()
+		if strings.Contains(sigKey(c.Signature()), modPath) {
+			// a signature that names a type of this program cannot belong to external code
+			return
+		}
+		for i := 0; i < ps.Len(); i++ {
+			if !e.externReach(ps.At(i).Type(), ws.names, seenT, 0) {
+				wsDebug(303)
+				if os.Getenv("VCHECK_WSDEBUG") != "" {
+					fmt.Fprintf(os.Stderr, "  function value of type %s param %s\n", c.Signature(), ps.At(i).Type())
+				}
+				ws.all, ws.allPlain = true, true
+				return
+			}
+		}
 		return
 	}
 	e.funcWrites(callee, c, ws, depth, seen)
+}
+
+// resolveFV follows a function value to the function it denotes when that is known from the
+// syntactic context: a closure made here, a function reference, or a parameter of a function
+// whose caller (in the current write-set traversal) passed a known function.
+func (e *Enc) resolveFV(v ssa.Value) *ssa.Function {
+	for i := 0; i < 8 && v != nil; i++ {
+		switch x := v.(type) {
+		case *ssa.Function:
+			return x
+		case *ssa.MakeClosure:
+			f, _ := x.Fn.(*ssa.Function)
+			if f != nil {
+				// remember what the closure captured (function values captured by value)
+				if e.fvFree == nil {
+					e.fvFree = map[*ssa.FreeVar]ssa.Value{}
+				}
+				for i, b := range x.Bindings {
+					if i < len(f.FreeVars) {
+						bt := b.Type().Underlying()
+						if pt, ok := bt.(*types.Pointer); ok {
+							bt = pt.Elem().Underlying()
+						}
+						if _, ok := bt.(*types.Signature); ok {
+							e.fvFree[f.FreeVars[i]] = b
+						}
+					}
+				}
+			}
+			return f
+		case *ssa.FreeVar:
+			b, ok := e.fvFree[x]
+			if !ok {
+				return nil
+			}
+			v = b
+		case *ssa.Parameter:
+			b, ok := e.fvBind[x]
+			if !ok {
+				return nil
+			}
+			v = b
+		case *ssa.ChangeType:
+			v = x.X
+		case *ssa.UnOp:
+			// load of a captured variable: the cell is written exactly once (a parameter or local
+			// that a closure captures and nobody reassigns)
+			if x.Op != token.MUL {
+				return nil
+			}
+			cell := x.X
+			if fv, ok := cell.(*ssa.FreeVar); ok {
+				b, ok := e.fvFree[fv]
+				if !ok {
+					return nil
+				}
+				cell = b
+			}
+			al, ok := cell.(*ssa.Alloc)
+			if !ok || al.Referrers() == nil {
+				return nil
+			}
+			var stored ssa.Value
+			n := 0
+			for _, r := range *al.Referrers() {
+				if st, ok := r.(*ssa.Store); ok && st.Addr == al {
+					stored = st.Val
+					n++
+				}
+			}
+			if n != 1 {
+				return nil
+			}
+			v = stored
+		default:
+			return nil
+		}
+	}
+	return nil
+}
+
+// funcValueCands: repo functions that are used as values (closures, method values, function
+// references that are not the callee of the instruction) and whose signature matches sig.
+func (r *Resolver) funcValueCands(sig *types.Signature) []*ssa.Function {
+	if r.fvCands == nil {
+		r.fvCands = map[string][]*ssa.Function{}
+		used := map[*ssa.Function]bool{}
+		for _, fn := range r.allFuncs {
+			for _, b := range fn.Blocks {
+				for _, ins := range b.Instrs {
+					var skip *ssa.Value
+					if cc, ok := ins.(ssa.CallInstruction); ok {
+						skip = &cc.Common().Value
+					}
+					for _, op := range ins.Operands(nil) {
+						if op == skip || *op == nil {
+							continue
+						}
+						switch v := (*op).(type) {
+						case *ssa.Function:
+							used[v] = true
+						case *ssa.MakeClosure:
+							if f2, ok := v.Fn.(*ssa.Function); ok {
+								used[f2] = true
+							}
+						}
+					}
+					if mc, ok := ins.(*ssa.MakeClosure); ok {
+						if f2, ok := mc.Fn.(*ssa.Function); ok {
+							used[f2] = true
+						}
+					}
+				}
+			}
+		}
+		for fn := range used {
+			if !inRepo(fn) && fn.Synthetic == "" {
+				continue
+			}
+			k := sigKey(fn.Signature)
+			r.fvCands[k] = append(r.fvCands[k], fn)
+		}
+		for k := range r.fvCands {
+			l := r.fvCands[k]
+			sort.Slice(l, func(i, j int) bool { return l[i].String() < l[j].String() })
+		}
+	}
+	return r.fvCands[sigKey(sig)]
+}
+
+// sigKey: parameter and result types of a signature (the receiver of a bound method is not part
+// of the function value's type).
+func sigKey(sig *types.Signature) string {
+	return types.TypeString(types.NewSignatureType(nil, nil, nil, sig.Params(), sig.Results(), sig.Variadic()), nil)
 }
 
 func (ws *writeSet) addAllBut(keep map[string]bool) {
@@ -300,6 +551,7 @@ func (ws *writeSet) addAllBut(keep map[string]bool) {
 		if ws.all {
 			return // already everything
 		}
+		wsDebug(375)
 		ws.all = true
 		ws.allBut = map[string]bool{}
 		for k := range keep {
@@ -319,6 +571,9 @@ func (e *Enc) specWrites(spec *FuncSpec, sig *types.Signature, callee *ssa.Funct
 		return
 	}
 	if !spec.HasAssigns {
+		if os.Getenv("VCHECK_WSDEBUG") != "" {
+			fmt.Fprintf(os.Stderr, "write set becomes ALL: contract of %s has no assigns clause\n", spec.Key)
+		}
 		ws.all, ws.allPlain, ws.allBut = true, true, nil
 		return
 	}
@@ -328,6 +583,9 @@ func (e *Enc) specWrites(spec *FuncSpec, sig *types.Signature, callee *ssa.Funct
 			e.lastAllBut = nil
 			ws.addAllBut(kb)
 		} else {
+			if os.Getenv("VCHECK_WSDEBUG") != "" {
+				fmt.Fprintf(os.Stderr, "write set becomes ALL: assigns clause of %s covers everything here\n", spec.Key)
+			}
 			ws.all, ws.allPlain, ws.allBut = true, true, nil
 		}
 	}
@@ -340,18 +598,93 @@ func (e *Enc) funcWrites(callee *ssa.Function, c *ssa.CallCommon, ws *writeSet, 
 	if isLockNoop(callee.String()) {
 		return
 	}
-	if spec := e.R.forFunc(callee); spec != nil {
-		e.specWrites(spec, callee.Signature, callee, ws)
+	if spec := e.R.forFunc(callee); spec != nil && !spec.PreOnly {
+		if c != nil && c.StaticCallee() == callee {
+			e.wsCall = c
+		}
+		if c != nil && c.StaticCallee() == callee && isBigMethod(callee) && len(c.Args) > 0 && isFreshBig(c.Args[0], 0) {
+			// arithmetic into a number object the writer created itself (big.NewInt(0).Add(..),
+			// new(big.Int).Mul(..)): older numbers keep their values
+			tmp := writeSet{names: map[string]bool{}}
+			e.specWrites(spec, callee.Signature, callee, &tmp)
+			e.wsCall = nil
+			if !tmp.all {
+				if ws.fresh == nil {
+					ws.fresh = map[string]bool{}
+				}
+				for n := range tmp.names {
+					ws.fresh[n] = true
+				}
+				return
+			}
+		}
+		e.withWatch(ws, e.wsCurIns(), func() { e.specWrites(spec, callee.Signature, callee, ws) })
+		e.wsCall = nil
 		return
 	}
-	if inRepo(callee) && len(callee.Blocks) > 0 {
-		if seen[callee] {
-			return
+	if (inRepo(callee) || isWrapper(callee)) && len(callee.Blocks) > 0 {
+		// function-typed parameters are bound to what this call passes (when known), so that
+		// "calls its callback" resolves to the callback of this call; such callees are re-analysed
+		// per call instead of once
+		hasFnParam := false
+		var bound []*ssa.Parameter
+		var actuals []ssa.Value
+		if c != nil {
+			if c.IsInvoke() && len(c.Args)+1 == len(callee.Params) {
+				actuals = append([]ssa.Value{nil}, c.Args...)
+			} else if !c.IsInvoke() && len(c.Args) == len(callee.Params) {
+				actuals = c.Args
+			}
 		}
-		seen[callee] = true
+		for i, p := range callee.Params {
+			if _, ok := p.Type().Underlying().(*types.Signature); ok {
+				hasFnParam = true
+				if actuals != nil && actuals[i] != nil {
+					if t := e.resolveFV(actuals[i]); t != nil {
+						if e.fvBind == nil {
+							e.fvBind = map[*ssa.Parameter]ssa.Value{}
+						}
+						if _, dup := e.fvBind[p]; !dup {
+							e.fvBind[p] = t
+							bound = append(bound, p)
+						}
+					}
+				}
+			}
+		}
+		defer func() {
+			for _, p := range bound {
+				delete(e.fvBind, p)
+			}
+		}()
+		if hasFnParam {
+			if depth > 60 || e.fvActive[callee] > 2 {
+				wsDebug(1)
+				ws.all, ws.allPlain = true, true
+				return
+			}
+			if e.fvActive == nil {
+				e.fvActive = map[*ssa.Function]int{}
+			}
+			e.fvActive[callee]++
+			defer func() { e.fvActive[callee]-- }()
+		} else {
+			if seen[callee] {
+				return
+			}
+			seen[callee] = true
+		}
+		why := os.Getenv("VCHECK_WSWHY")
+		e.wsStack = append(e.wsStack, callee.String())
+		defer func() { e.wsStack = e.wsStack[:len(e.wsStack)-1] }()
 		for _, b := range callee.Blocks {
 			for _, ins := range b.Instrs {
+				had := why != "" && ws.names[why]
 				e.instrWrites(ins, ws, depth+1, seen)
+				if why != "" && !had && ws.names[why] && !e.wsWhyDone {
+					e.wsWhyDone = true
+					fmt.Fprintf(os.Stderr, "WSWHY %s first written by %s at %s\n  via %s\n", why, ins, e.posStr(ins.Pos()), strings.Join(e.wsStack, "\n   -> "))
+				}
 				if ws.all {
 					return
 				}
@@ -359,7 +692,8 @@ func (e *Enc) funcWrites(callee *ssa.Function, c *ssa.CallCommon, ws *writeSet, 
 		}
 		return
 	}
-	if !inRepo(callee) {
+	if (!inRepo(callee) && !isWrapper(callee)) || len(callee.Blocks) == 0 {
+		// (assembly routines of the program are treated like external code)
 		// external code writes only what it can reach from its receiver and arguments (by static
 		// type); a callback or an interface-typed argument makes that unknown
 		sig := callee.Signature
@@ -371,14 +705,75 @@ func (e *Enc) funcWrites(callee *ssa.Function, c *ssa.CallCommon, ws *writeSet, 
 			ts = append(ts, sig.Params().At(i).Type())
 		}
 		seenT := map[string]bool{}
-		for _, t := range ts {
-			if !e.externReach(t, ws.names, seenT, 0) {
+		curIns := e.wsCurIns()
+		for ti, t := range ts {
+			// an argument of type interface{}: what the external code can reach is given by the
+			// static type of the value that is boxed at this call site
+			if it, ok := t.Underlying().(*types.Interface); ok && it.NumMethods() == 0 && c != nil && c.StaticCallee() == callee && ti < len(c.Args) {
+				if mi, ok := c.Args[ti].(*ssa.MakeInterface); ok {
+					t = mi.X.Type()
+				}
+			}
+			// a callback or a non-empty interface handed to external code: the external code may call
+			// it, i.e. run any program function of that signature that is used as a value / any
+			// program implementation of the interface's methods (closed world)
+			switch u := t.Underlying().(type) {
+			case *types.Signature:
+				var target *ssa.Function
+				if c != nil && c.StaticCallee() == callee && ti < len(c.Args) {
+					target = e.resolveFV(c.Args[ti])
+				}
+				if target != nil {
+					e.funcWrites(target, nil, ws, depth, seen)
+					if ws.all {
+						return
+					}
+					ws.extern = true
+					continue
+				}
+				for _, cand := range e.R.funcValueCands(u) {
+					e.funcWrites(cand, c, ws, depth, seen)
+					if ws.all {
+						return
+					}
+				}
+				ws.extern = true
+				continue
+			case *types.Interface:
+				if u.NumMethods() > 0 && !isErrorType(t) {
+					for i := 0; i < u.NumMethods(); i++ {
+						impls, _ := e.R.implementations(t, u.Method(i))
+						for _, cand := range impls {
+							if !inRepo(cand) {
+								continue
+							}
+							e.funcWrites(cand, c, ws, depth, seen)
+							if ws.all {
+								return
+							}
+						}
+					}
+					ws.extern = true
+					continue
+				}
+			}
+			reached := true
+			e.withWatch(ws, curIns, func() { reached = e.externReach(t, ws.names, seenT, 0) })
+			if !reached {
+				wsDebug(448)
+				if os.Getenv("VCHECK_WSDEBUG") != "" {
+					fmt.Fprintf(os.Stderr, "  external callee %s param type %s\n", callee, t)
+				}
 				ws.all, ws.allPlain = true, true
 				return
 			}
 		}
 		ws.extern = true // ghost state of external objects (database contents, sets) may change
 		return
+	}
+	wsDebug(455)
+	if os.Getenv("VCHECK_WSDEBUG") != "" {
+		fmt.Fprintf(os.Stderr, "  repo function without body %s\n", callee)
 	}
 	ws.all, ws.allPlain = true, true
 }
@@ -459,6 +854,20 @@ func (f *FnEnc) call(c *ssa.CallCommon, v ssa.Value, pos token.Pos) Val {
 		if spec := e.R.forMethod(c.Method); spec != nil {
 			return f.applyContract(spec, c.Method.Type().(*types.Signature), c.Method.FullName(), args, append([]ssa.Value{c.Value}, c.Args...), true, hint, pos)
 		}
+		// closed world: an interface method with exactly one implementation in the program, which
+		// is under contract, is a static call of that implementation on the payload pointer
+		if impls, ok := e.R.implementations(c.Value.Type(), c.Method); ok && len(impls) == 1 && inRepo(impls[0]) {
+			impl := impls[0]
+			if spec := e.R.forFunc(impl); spec != nil {
+				if _, isPtr := impl.Signature.Recv().Type().(*types.Pointer); isPtr {
+					e.abstracted[fnDisplayName(f.fn)+": dynamic call "+c.Method.FullName()+" resolved to its only implementation "+fnDisplayName(impl)+" (closed world)"] = true
+					f.assume(tEq(app(SInt, "dyntype", recv), e.typeTag(impl.Signature.Recv().Type())))
+					pl := e.define("devirt", app(SInt, "ifacepl", recv))
+					args2 := append([]Val{pl}, args[1:]...)
+					return f.applyContract(spec, impl.Signature, impl.String(), args2, append([]ssa.Value{c.Value}, c.Args...), true, hint, pos)
+				}
+			}
+		}
 		e.abstracted[fnDisplayName(f.fn)+": dynamic call "+c.Method.FullName()+": write set of its implementations is havocked"] = true
 		f.checkEscapes(args, c.Method.FullName())
 		f.fieldPtrArgs(args, sig, c.Method.FullName())
@@ -480,11 +889,18 @@ func (f *FnEnc) call(c *ssa.CallCommon, v ssa.Value, pos token.Pos) Val {
 	}
 	if callee == nil {
 		// call through a function value
-		e.abstracted[fnDisplayName(f.fn)+": call through function value havocs the heap"] = true
 		args := f.argVals(c)
 		f.checkEscapes(args, "function value")
 		f.fieldPtrArgs(args, sig, "function value")
-		f.st = f.havocWrites(writeSet{all: true})
+		ws := writeSet{names: map[string]bool{}}
+		e.callWrites(c, &ws, 0, map[*ssa.Function]bool{})
+		f.argAliasWrites(args, c, &ws)
+		if ws.all {
+			e.abstracted[fnDisplayName(f.fn)+": call through function value havocs the heap"] = true
+		} else {
+			e.abstracted[fnDisplayName(f.fn)+": call through function value: write set of every function of that signature used as a value is havocked (closed world)"] = true
+		}
+		f.st = f.havocWrites(ws)
 		return f.resultVal(sig, hint)
 	}
 	name := callee.String()
@@ -493,6 +909,11 @@ func (f *FnEnc) call(c *ssa.CallCommon, v ssa.Value, pos token.Pos) Val {
 	}
 	args := f.argVals(c)
 	spec := e.R.forFunc(callee)
+	if spec != nil && spec.PreOnly {
+		// check the preconditions here, then treat the callee as if it had no contract
+		f.applyContract(spec, callee.Signature, name, args, c.Args, callee.Signature.Recv() != nil, hint, pos)
+		spec = nil
+	}
 	if spec != nil && !(spec.Inline && len(callee.Blocks) > 0) {
 		hasRecv := callee.Signature.Recv() != nil
 		return f.applyContract(spec, callee.Signature, name, args, c.Args, hasRecv, hint, pos)
@@ -506,6 +927,23 @@ func (f *FnEnc) call(c *ssa.CallCommon, v ssa.Value, pos token.Pos) Val {
 	e.callWrites(c, &ws, 0, map[*ssa.Function]bool{})
 	f.argAliasWrites(args, c, &ws)
 	if inRepo(callee) || len(frees) > 0 {
+		// components this function's contract declares preserved across this callee are kept: the
+		// declaration is checked by its own obligations (one per writing instruction, see
+		// preserveObligations), every other obligation may rely on it
+		if f.top && f.spec != nil && !ws.all {
+			for _, pv := range f.spec.Preserves {
+				for _, cn := range pv.Callees {
+					if cn == fnDisplayName(callee) {
+						for _, comp := range pv.Comps {
+							delete(ws.names, expandComp(comp))
+						}
+					}
+				}
+			}
+		}
+		if os.Getenv("VCHECK_WSDEBUG") == "2" {
+			fmt.Fprintf(os.Stderr, "write set of %s: all=%v extern=%v\n  names: %v\n  fresh: %v\n", fnDisplayName(callee), ws.all, ws.extern, sortedKeys(ws.names), sortedKeys(ws.fresh))
+		}
 		e.abstracted[fnDisplayName(f.fn)+": call "+fnDisplayName(callee)+" (no contract, not inlined): its transitive write set is havocked"] = true
 		f.st = f.havocWrites(ws)
 		return f.resultVal(sig, hint)
@@ -513,10 +951,12 @@ func (f *FnEnc) call(c *ssa.CallCommon, v ssa.Value, pos token.Pos) Val {
 	// external function without contract
 	e.abstracted[fnDisplayName(f.fn)+": external call "+name+" (no contract)"] = true
 	if f.fieldPtrArgs(args, sig, name) {
+		wsDebug(609)
 		ws.all, ws.allPlain = true, true
 	}
 	for _, a := range c.Args {
 		if sl, ok := a.Type().Underlying().(*types.Slice); ok && f.viewElem[typeKey(sl.Elem().Underlying())] {
+			wsDebug(613)
 			ws.all, ws.allPlain = true, true // the slice may view a repo array field; the callee may write through it
 		}
 	}
@@ -537,6 +977,7 @@ func (f *FnEnc) argAliasWrites(args []Val, c *ssa.CallCommon, ws *writeSet) {
 	}
 	for _, a := range c.Args {
 		if sl, ok := a.Type().Underlying().(*types.Slice); ok && f.viewElem[typeKey(sl.Elem().Underlying())] {
+			wsDebug(633)
 			ws.all, ws.allPlain = true, true
 		}
 	}
@@ -845,6 +1286,9 @@ func (f *FnEnc) applyContract(spec *FuncSpec, sig *types.Signature, name string,
 		}
 		f.assume(g)
 	}
+	if spec.PreOnly {
+		return nil
+	}
 	if !spec.Pure {
 		f.checkEscapes(args, name)
 	}
@@ -888,8 +1332,8 @@ func (f *FnEnc) applyContract(spec *FuncSpec, sig *types.Signature, name string,
 
 type assignTarget struct {
 	comp   *Comp
-	ref    Term // pointwise index; empty S = whole component
-	mapKey Term // for map entries
+	ref    Term   // pointwise index; empty S = whole component
+	mapKey Term   // for map entries
 	more   []Term // deeper indices (ghost functions)
 	whole  bool
 	// whole-component havoc that leaves every object allocated before this reference untouched
@@ -1020,6 +1464,17 @@ func (e *Enc) assignCompNames(spec *FuncSpec, sig *types.Signature, callee *ssa.
 		pkg = e.P.ByPath[spec.PkgPath].Types
 	}
 	ctx := &SpecCtx{e: e, vars: vars, st: st, old: st, pkg: pkg}
+	if e.wsCall != nil && len(e.wsCall.Args) == len(args) {
+		// static types of the actual arguments (for reach() of interface-typed parameters)
+		ctx.srcArgs = map[string]ssa.Value{}
+		var dummy []Val
+		for i := range args {
+			dummy = append(dummy, i)
+		}
+		for k, b := range bindParams(sig, dummy, hasRecv, spec.Params) {
+			ctx.srcArgs[k] = e.wsCall.Args[b.v.(int)]
+		}
+	}
 	for _, a := range spec.Assigns {
 		if a.All {
 			return nil, true
@@ -1617,4 +2072,171 @@ func (e *Enc) externStruct(T types.Type, st *types.Struct, out map[string]bool, 
 		}
 	}
 	return true
+}
+
+func wsDebug(line int) {
+	if os.Getenv("VCHECK_WSDEBUG") != "" {
+		fmt.Fprintf(os.Stderr, "write set becomes ALL at calls.go:%d\n%s\n", line, string(debug.Stack()))
+	}
+}
+
+
+func isBigMethod(fn *ssa.Function) bool {
+	if fn.Signature.Recv() == nil || fn.Pkg == nil || fn.Pkg.Pkg.Path() != "math/big" {
+		return false
+	}
+	_, isPtr := fn.Signature.Recv().Type().(*types.Pointer)
+	return isPtr
+}
+
+// isFreshBig: v denotes a math/big number object created by the function that uses it: new(T),
+// &T{}, big.NewInt/NewFloat/NewRat, or the result of a math/big method on such an object (these
+// return their receiver).
+func isFreshBig(v ssa.Value, depth int) bool {
+	if depth > 6 {
+		return false
+	}
+	switch x := v.(type) {
+	case *ssa.Alloc:
+		return true
+	case *ssa.Const:
+		return x.IsNil()
+	case *ssa.Phi:
+		for _, ed := range x.Edges {
+			if ed != v && !isFreshBig(ed, depth+1) {
+				return false
+			}
+		}
+		return true
+	case *ssa.Call:
+		callee := x.Call.StaticCallee()
+		if callee != nil && inRepo(callee) && len(callee.Blocks) > 0 && callee.Signature.Results().Len() == 1 {
+			// a function of the program all of whose returns hand out a number it created
+			for _, b := range callee.Blocks {
+				if ret, ok := b.Instrs[len(b.Instrs)-1].(*ssa.Return); ok {
+					if len(ret.Results) != 1 || !isFreshBig(ret.Results[0], depth+1) {
+						return false
+					}
+				}
+			}
+			return true
+		}
+		if callee == nil || callee.Pkg == nil || callee.Pkg.Pkg.Path() != "math/big" {
+			return false
+		}
+		switch callee.Name() {
+		case "NewInt", "NewFloat", "NewRat":
+			return true
+		}
+		if isBigMethod(callee) && len(x.Call.Args) > 0 && types.Identical(callee.Signature.Results().At(0).Type(), callee.Signature.Recv().Type()) && callee.Signature.Results().Len() == 1 {
+			return isFreshBig(x.Call.Args[0], depth+1)
+		}
+	}
+	return false
+}
+
+
+// expandComp turns the short component name used in contracts ("bigval", "F core/state.Account
+// Balance") into the engine's name (module path added).
+func expandComp(c string) string {
+	c = strings.TrimSpace(c)
+	for _, pfx := range []string{"F ", "C "} {
+		if strings.HasPrefix(c, pfx) {
+			rest := c[len(pfx):]
+			first := rest
+			if i := strings.IndexAny(rest, "/ "); i >= 0 {
+				first = rest[:i]
+			}
+			if !strings.Contains(first, ".") || strings.HasPrefix(rest, "core/") {
+				if !strings.HasPrefix(rest, modPath) {
+					star := ""
+					for strings.HasPrefix(rest, "*") {
+						star += "*"
+						rest = rest[1:]
+					}
+					return pfx + star + modPath + "/" + rest
+				}
+			}
+		}
+	}
+	return c
+}
+
+// preserveObligations: one obligation per instruction that writes a preserved component
+// (transitively, non-freshly) under a listed callee; none found = one discharged obligation.
+func preserveObligations(e *Enc, fn *ssa.Function, fs *FuncSpec) {
+	for _, pv := range fs.Preserves {
+		props := pv.Props
+		if len(props) == 0 {
+			props = fs.Props
+		}
+		watch := map[string]bool{}
+		for _, c := range pv.Comps {
+			watch[expandComp(c)] = true
+		}
+		var sites []wsSite
+		unknown := ""
+		found := 0
+		for _, b := range fn.Blocks {
+			for _, ins := range b.Instrs {
+				call, ok := ins.(*ssa.Call)
+				if !ok || call.Call.StaticCallee() == nil {
+					continue
+				}
+				listed := false
+				for _, cn := range pv.Callees {
+					if cn == fnDisplayName(call.Call.StaticCallee()) {
+						listed = true
+					}
+				}
+				if !listed {
+					continue
+				}
+				found++
+				ws := writeSet{names: map[string]bool{}, watch: watch, sites: &sites}
+				e.wsInsStack = append(e.wsInsStack, ins)
+				e.callWrites(&call.Call, &ws, 0, map[*ssa.Function]bool{})
+				e.wsInsStack = e.wsInsStack[:len(e.wsInsStack)-1]
+				if ws.all {
+					unknown = fnDisplayName(call.Call.StaticCallee())
+				}
+			}
+		}
+		name := fnDisplayName(fn) + "/preserves/" + pv.Label
+		mk := func(n string, ok bool, why string, pos token.Pos) {
+			o := &Obligation{Name: n, Kind: "frame", Fn: fnDisplayName(fn), Reach: tTrue, Goal: tBool(ok), Pos: pos, Props: props, Src: pv.Src}
+			if ok {
+				o.Verdict, o.Solver = "unsat", "write-set"
+			} else {
+				o.Verdict, o.Model = "sat", why
+			}
+			e.obls = append(e.obls, o)
+		}
+		if found == 0 {
+			mk(name+"/exists", false, "none of the listed callees is called in this function", fn.Pos())
+			continue
+		}
+		if unknown != "" {
+			mk(name+"/write-set-known", false, "the transitive write set of "+unknown+" could not be bounded (see VCHECK_WSDEBUG=1)", fn.Pos())
+			continue
+		}
+		seenSite := map[string]bool{}
+		for _, s := range sites {
+			short := strings.ReplaceAll(s.name, modPath+"/", "")
+			where := ""
+			if pf := s.ins.Parent(); pf != nil {
+				where = fnDisplayName(pf) + ":" + srcTextAt(pf, s.ins.Pos())
+			}
+			n := name + "/" + strings.ReplaceAll(short, " ", ".") + "@" + where
+			if seenSite[n] {
+				continue
+			}
+			seenSite[n] = true
+			chain := strings.ReplaceAll(strings.Join(s.chain, " -> "), modPath+"/", "")
+			mk(n, false, "component "+short+" may be written by "+s.ins.String()+" at "+e.posStr(s.ins.Pos())+" (object not created by the writer); reached via "+chain, s.ins.Pos())
+		}
+		if len(seenSite) == 0 {
+			mk(name, true, "", fn.Pos())
+		}
+	}
 }
